@@ -7,8 +7,10 @@
 (*    plaintext as ONE continuous stream over all send calls;              *)
 (*  - bytes received decrypt likewise over all read / recv calls, with a   *)
 (*    register independent of the sending direction;                       *)
-(*  - the secret is what os.urandom(16) returned, exactly one call per     *)
-(*    login, 16 bytes, different in every login of the run;                *)
+(*  - the secret is a 16-byte draw from the system entropy source made      *)
+(*    during that login (os.urandom, however reached), and different in    *)
+(*    every login of the run although every deterministic generator of the *)
+(*    process is reset to the same state before each login;                *)
 (*  - secret and verify token reach the server as PKCS#1 v1.5 type-2       *)
 (*    blocks: 00 02 PS 00 M, PS non-zero, at least 8 bytes, total = key    *)
 (*    length.                                                              *)
@@ -38,7 +40,7 @@ Pkcs1Ok(em, kl, m) ==
 LoginOk(t) ==
   ~t.login \/
   ( /\ Len(t.secret) = 16 /\ t.key = t.secret    \* the peer keys its cipher with what the RSA block carried
-    /\ t.urandom = <<t.secret>>                    \* exactly one 16-byte draw, and it is the secret
+    /\ \E i \in 1..Len(t.urandom) : t.urandom[i] = t.secret    \* the secret is one 16-byte draw from the system entropy source
     /\ Pkcs1Ok(t.blocks[1], t.kl, t.secret)
     /\ Pkcs1Ok(t.blocks[2], t.kl, t.token) )
 
